@@ -62,3 +62,34 @@ def r13_1(ctx):
 
 def _ord(site, loc):
     return "%d.%d" % loc
+
+
+def r13_3(ctx):
+    """The en-passant section of the successor builder is evaluated for every piece in every mode:
+    no path from entry to return avoids the test that leads to the en-passant successor."""
+    an = successor.get(ctx)
+    n = 0
+    for site in an.sites:
+        b, ex = site.b, site.ex
+        mp = [(loc, ev) for loc, evs in site.events.items() for ev in evs if ev[0] == "call" and ev[1] == successor.MOVE_PIECE and ev[2] == 0]
+        if len(mp) != 1:
+            continue
+        to = strip_refs(ex.call_args(mp[0][0][0])[2])
+        if not any(x[0] == "call" and x[1].endswith("pawn_moves_en_passant") for x in __import__("wa.expr", fromlist=["subexprs"]).subexprs(to)):
+            continue
+        n += 1
+        # outermost guard of the site: the first switch (in dominance order) on the way to the clone
+        # whose condition is not shared with the other successor kinds
+        from wa.cond import dominating_facts
+        guards = [s for d, vals, excl, s, tg in dominating_facts(b, ex, site.bb)]
+        guards = [g for g in guards if not any(b.node_dominates(g, o.bb) for o in an.sites if o.b is b and o is not site)]
+        if not guards:
+            ctx.ob("%s:ep-section-guard" % site.name, False, b.where(site.loc), "cannot find the test that leads to the en-passant successor", reason="shape-not-recognised")
+            continue
+        first = min(guards, key=lambda g: len([x for x in b.normal if b.node_dominates(x, g)]))
+        rets = b.return_blocks()
+        skip = [r for r in rets if first != r and b.reaches(0, r, removed_nodes={first})]
+        ctx.ob("%s:ep-section-always-evaluated" % site.name, not skip, b.where(b.term_loc(first)),
+               "every path through the successor builder reaches the en-passant test at %s%s" % (
+                   b.where(b.term_loc(first)), "" if not skip else ": NOT so — an early exit skips it, so a legal en-passant capture can be missing from the generated list"))
+    ctx.floor("en-passant successor sites", n, 1)
